@@ -132,7 +132,7 @@ func ObserveWith(fs *memfs.FS, dirs []string, reg *gen.Registry, cred memfs.Cred
 				state = "ok"
 			}
 		}
-		if state == "ok" && ov.DirDown[i] {
+		if (state == "ok" || state == "missing") && ov.DirDown[i] {
 			state = "transient-failure"
 		}
 		t.DirState[i] = state
